@@ -131,10 +131,23 @@ func (d *tlbDrv) decode(name string, t reflect.Type, class string, root *node, s
 		out["val"] = true
 		out["v"] = json.RawMessage(raw)
 		out["tree"] = treeJSON(c, &b)
+		if decOracle(d.r.o) {
+			// opt-in (thorough tier, or VERIF_C08_DEC=1): the value also in the shape of the specification's total decoder
+			// (dictionaries as [key bits, value] in key order), as canonical text: TlbDec!DecLax must return exactly this
+			tlbx.DictBits = true
+			dv := tlbx.Dump(p.Elem(), "")
+			tlbx.DictBits = false
+			if ds, err := json.Marshal(dv); err == nil {
+				out["ds"] = string(ds)
+			}
+		}
 	})
 }
 
 func (d *tlbDrv) skipSlot() { d.r.SkipSlot() }
+
+// decOracle: is the returned value also to be compared with the specification's own decoding of the input?
+func decOracle(o Opts) bool { return o.thorough() || os.Getenv("VERIF_C08_DEC") == "1" }
 
 // DriveTLB: every exported TL-B target type x {valid, random trees, one-mutation encodings, values of other types,
 // expansion bombs}.
